@@ -471,6 +471,19 @@ impl Sim {
         }
     }
 
+    /// Signature of a C28 agreement failure (different entries committed at one index, on one
+    /// node or on two; a committed entry removed or replaced). When the history contains an
+    /// append accepted on a divergent prefix (and no double vote) these symptoms share that one
+    /// root cause and one signature, which is the listed known finding; otherwise the symptom
+    /// itself (plus any other trigger seen) is the signature.
+    fn agreement_sig(&self, symptom: &str) -> String {
+        if self.divergent_appends > 0 && self.double_votes == 0 {
+            "committed entries disagree or change after an append was accepted on a divergent prefix".to_string()
+        } else {
+            format!("{symptom}{}", self.cause())
+        }
+    }
+
     /// Invariants checked after every action. `which`: property being decided.
     fn check(&mut self, which: Which) -> Result<(), Fail> {
         // observers first
@@ -516,7 +529,7 @@ impl Sim {
                 if let Some(prev) = committed.insert(e.index, (e.term, e.data)) {
                     if matches!(which, Which::C28) && prev != (e.term, e.data) {
                         return Err(Fail::new(
-                            format!("a node committed two different entries at one index{}", self.cause()),
+                            self.agreement_sig("a node committed two different entries at one index"),
                             format!("node {i} index {} {prev:?} and {:?}\ntrace:\n{}", e.index, (e.term, e.data), self.trace.join("\n")),
                         ));
                     }
@@ -526,7 +539,7 @@ impl Sim {
                 for (idx, e) in &self.committed_seen[i] {
                     if committed.get(idx) != Some(e) {
                         return Err(Fail::new(
-                            format!("a committed entry was removed or replaced{}", self.cause()),
+                            self.agreement_sig("a committed entry was removed or replaced"),
                             format!("node {i} index {idx}: was {e:?}, now {:?}\ntrace:\n{}", committed.get(idx), self.trace.join("\n")),
                         ));
                     }
@@ -545,7 +558,7 @@ impl Sim {
                     if let Some((t, d, other)) = all.get(idx) {
                         if (*t, *d) != *e {
                             return Err(Fail::new(
-                                format!("two nodes committed different entries at one index{}", self.cause()),
+                                self.agreement_sig("two nodes committed different entries at one index"),
                                 format!("index {idx}: node {other} has {:?}, node {i} has {e:?}\ntrace:\n{}", (t, d), self.trace.join("\n")),
                             ));
                         }
